@@ -2,11 +2,11 @@
 # Runs the correspondence check (harness + model + compare) with the harness built
 # against another checkout of the service module (a scratch worktree with a repair or
 # a mutation). Never touches /repo or this tree's harness: works on a copy.
-# usage: tools/run_against.sh <repo-dir> <tag> [n-histories] [seed]
+# usage: tools/run_against.sh <repo-dir> <tag> [n-histories] [seed] [explore|corpus]
 set -e
 cd "$(dirname "$0")/.."
 ROOT=$(pwd)
-REPO=$1; TAG=$2; N=${3:-500}; SEED=${4:-7}
+REPO=$1; TAG=$2; N=${3:-500}; SEED=${4:-7}; MODE=${5:-explore}
 export GOFLAGS=-mod=mod GOPROXY=off GOSUMDB=off GOTOOLCHAIN=local
 W=/tmp/hq-$TAG
 rm -rf "$W"; mkdir -p "$W"
@@ -14,7 +14,7 @@ cp harness/*.go harness/go.mod "$W"/
 sed -i "s#github.com/irismod/service => /repo#github.com/irismod/service => $REPO#" "$W/go.mod"
 cp "$REPO/go.sum" "$W/go.sum"
 (cd "$W" && go build -o harness . )
-"$W/harness" -mode explore -seed "$SEED" -n "$N" -out "$W/impl.trace" -summary "$W/sum.json"
+"$W/harness" -mode "$MODE" -seed "$SEED" -n "$N" -out "$W/impl.trace" -summary "$W/sum.json"
 "$ROOT/build/model" < "$W/impl.trace" > "$W/model.trace"
 python3 "$ROOT/tools/compare.py" "$W/impl.trace" "$W/model.trace" > "$W/compare.txt" || true
 python3 - "$W" <<'PY'
